@@ -954,7 +954,7 @@ pub fn run_c19(cfg: &Cfg) -> i32 {
         "one evaluation = one run of the real agent binary in daemon mode under the clock-dilation shim against a fake Junos whose connections fail or succeed by script, with signals sent at scripted virtual times; the virtual timestamps of the connections, the logged back-off values and the exit are checked; \
          distinct = distinct (period, outcome sequence, signal schedule); non-trivial = all",
     );
-    rep.assumptions.push("virtual time = real monotonic time x K (LD_PRELOAD shim on clock_gettime/epoll_wait); tolerance max(5 virtual s, 5 %); runs whose harness timer overshoot exceeds 20 ms are inconclusive".into());
+    rep.assumptions.push("virtual time = real monotonic time x K (LD_PRELOAD shim on clock_gettime/epoll_wait); tolerance max(5 virtual s, 5 %); runs whose harness timer overshoot exceeds max(20 ms, 2000/K ms) are repeated at a lower K, and inconclusive if that happens even at K=10".into());
     if !std::path::Path::new(&e2e::agent_bin()).exists() {
         eprintln!("agent binary not built");
         return 2;
@@ -1025,7 +1025,7 @@ pub fn run_c19(cfg: &Cfg) -> i32 {
                     let mut reruns = 0u64;
                     loop {
                         match run_daemon(k, period, &outcomes, &signals, end, &slow, &opts) {
-                            Ok(o) if o.overshoot_ms > 20.0 && k > 10.0 => {
+                            Ok(o) if o.overshoot_ms > (2000.0 / k).max(20.0) && k > 10.0 => {
                                 reruns += 1;
                                 k = if k > 30.0 { 30.0 } else { 10.0 };
                             }
@@ -1055,7 +1055,9 @@ pub fn run_c19(cfg: &Cfg) -> i32 {
         rep.case(Some(sc.name.as_bytes()));
         rep.count_n("connections_observed", o.accepts.len() as u64);
         rep.count_n("logged_backoff_values", o.logged_delays.len() as u64);
-        if o.overshoot_ms > 20.0 {
+        // a hiccup of the harness' own timers is tolerable as long as it stays well inside the
+        // tolerance of 5 virtual seconds (= 5000/K real ms)
+        if o.overshoot_ms > (2000.0 / k).max(20.0) {
             rep.inconclusive(sc.name, &format!("harness timer overshoot {:.1} ms even at K={k}", o.overshoot_ms));
             continue;
         }
